@@ -21,6 +21,8 @@ class Check(BaseCheck):
 
     def translate(self):
         extract.gen_fem()
+        extract.gen_solver_aniso()
+        extract.gen_curv_tria()
 
     def correspond(self, drv, stats):
         fails = []
